@@ -171,3 +171,8 @@ static int main() {
 long ran_num_next(void) {
 	return ran_arr_next();
 }
+
+/// Start over, so that the next number is the one a fresh process would get first
+void ran_num_reset(void) {
+	ran_arr_ptr = &ran_arr_dummy;
+}
